@@ -43,6 +43,8 @@ fixed('C11', '170b03b', "PNG with only transparent colours (dark=None, light=Non
 fixed('C14', 'bcff094', "CLI printed a traceback for an unknown --encoding (LookupError while creating the symbol)", 'F25')
 fixed('C04', '5c99981', "requested version larger than the minimal one was not checked against its own (larger) per-segment overhead: make(['1','A','1','A','1','A','1','A','1'], version=1) truncated", 'F26')
 fixed('C01', '5c99981', "many-segment content with a requested version was cut off silently", 'F26')
+fixed('C09', '288f385', "float alpha in a colour tuple ((255, 0, 0, 0.5)) made the PNG writer fail with struct.error", 'F27')
+fixed('C14', '288f385', "struct.error escaped from save(kind='png', dark=(r, g, b, 0.5))", 'F27')
 known('C13', 'K1', 'C13/K1-extra-zero-codeword-when-aligned',
       'an additional 00000000 codeword is written before the pad codewords whenever the terminated bit stream already ends on a codeword boundary and at least one codeword of capacity is left (QR, M2, M4)',
       'observed tail == terminator + 8 zero bits + 11101100/00010001 alternating up to the capacity, in a symbol that is not M1/M3 whose terminated stream length is a multiple of 8 and smaller than the capacity; any other tail is a violation',
